@@ -311,6 +311,19 @@ def run_copy(case, stt):
             check(type(y).__name__ == base, "like() class {}", type(y).__name__)
             a, b = attrs(y), attrs(z)
             check(all(same_attrs({k: a[k]}, {k: b[k]}) for k in a), "{}.like(obj) changed a shared attribute: {} vs {}", base, a, b)
+            if base != spec["cls"]:
+                # ... and back up: the subclass needs what the base object does not have -- given, it is taken; missing, like() refuses
+                extra = {k: getattr(z, k) for k in attrs(z) if k not in attrs(y) and k not in ("start_time", "meta")}
+                if extra:
+                    w = type(z).like(y, **extra)
+                    contract(w, how + " (base object to subclass)")
+                    check(type(w) is type(z) and same_attrs(attrs(w), attrs(z)), "{}.like(base object, {}) does not carry the given and the inherited "
+                          "attributes: {} vs {}", spec["cls"], sorted(extra), attrs(w), attrs(z))
+                    for k in sorted(extra):
+                        if k == "freq_align" or k == "pol_type":
+                            continue  # (these have defaults in the constructors)
+                        must_raise("%s.like(base object) without the required %s" % (spec["cls"], k),
+                                   lambda: type(z).like(y, **{a2: v for a2, v in extra.items() if a2 != k}), (ValueError, TypeError))
             stt.nt()
             stt.label(how)
             return
